@@ -6,66 +6,109 @@ from checks.c10 import DispatcherWorld
 from checks.hubmodel import sdiv
 
 CRATES = ['basset_sei_rewards_dispatcher']
-BOUNDS = {'quick': {'reward coins held': 'the two reward denominations', 'balances': '<= 1e27', 'oracle price': '[1e-12, 1e12]'},
-          'thorough': {'reward coins held': 'two reward denominations + one foreign swap denomination'}}
+BOUNDS = {'quick': {'coins held': 'the two reward denominations + one foreign denomination', 'balances': '<= 1e27', 'oracle price': '[1e-12, 1e12]',
+                    'configured swap_denoms': 'the instantiated pair, and every list of 1..2 entries over 3 denominations (repetitions allowed)'},
+          'thorough': {'configured swap_denoms': 'every list of 0..3 entries over 3 denominations (repetitions allowed)'}}
 ASSUMPTIONS = ['balances <= 1e27 and prices in [1e-12, 1e12] (outside: the contract\'s own Uint128 overflow panics)',
                'bonded totals <= 1e18 each and not both zero', 'swap executes at the oracle price (specified stub, C17/C19)']
-OUTSIDE = ['foreign denominations that need a swap simulation (thorough tier only)', 'keeper rate configuration (C20)']
+OUTSIDE = ['more than one foreign denomination; swap_denoms lists longer than the bound', 'keeper rate configuration (C20)', 'the swap contract delivering less than its simulation']
 BAL = 10 ** 27
 PMIN, PMAX = 10 ** 6, 10 ** 30
 
 
-def world(ctx):
-    W = DispatcherWorld(ctx)
+def world(ctx, n_swap=None):
+    W = DispatcherWorld(ctx, n_swap)
     W.bal_s = W.iv('held_stsei_denom', 0, BAL)
     W.bal_b = W.iv('held_bsei_denom', 0, BAL)
+    if n_swap is not None:
+        W.bal_o = W.iv('held_foreign_denom', 0, BAL)
+        W.sim = W.iv('simulated_return_of_foreign', 0, BAL)
     W.price = W.iv('price_stsei_in_bsei', PMIN, PMAX)
     W.install()
     return W
 
 
-def ob_swap(ctx):
-    W = world(ctx)
-    I = W.I
-    S = I.summ
-    Bs = W.iv('stsei_total_bonded', 0, CAP)
-    Bb = W.iv('bsei_total_bonded', 0, CAP)
-    msg = W.mk.variant('msg::ExecuteMsg', 'SwapToRewardDenom', crate=W.crate, bsei_total_bonded=U128(Bb), stsei_total_bonded=U128(Bs))
-    raw_scenario(W, 'execute', msg, W.hub, querier=W.querier_template())
-    nok = 0
-    for st, res in W.execute(msg, W.hub):
-        if not is_ok(res):
-            continue        # overflow panics at extreme balance x price products are outside the property
-        nok += 1
-        msgs = W.messages(st, res)
-        inv = sdiv(I, st, E * E, W.price)
-        total = W.bal_s + sdiv(I, st, W.bal_b * inv, E)
-        share = sdiv(I, st, total * Bs, Bs + Bb)
-        cl = [(len(msgs) <= 1, 'at most one swap message', 'swap:count')]
-        if msgs:
-            m = msgs[0]
-            sm = m['msg']
-            coin = sm.fields[0]
-            denom, amt = coin.fields[0], coin.fields[1].fields[0]
-            target = sm.fields[1]
-            is_s = S.struct_eq(st, denom, W.sdenom)
-            held = z3.If(is_s, W.bal_s, W.bal_b) if not isinstance(is_s, bool) else (W.bal_s if is_s else W.bal_b)
-            after_s = z3.If(is_s, W.bal_s - amt, W.bal_s + sdiv(I, st, amt * inv, E)) if not isinstance(is_s, bool) else \
-                (W.bal_s - amt if is_s else W.bal_s + sdiv(I, st, amt * inv, E))
-            cl += [(amt <= held, 'never offers more of a coin than it holds', 'swap:offer'),
-                   (amt >= 1, 'no zero swap', 'swap:nonzero'),
-                   (z3.And(len(m['funds']) == 1, m['funds'][0][1] == amt) if m['funds'] else False, 'offered coin is attached as funds', 'swap:funds'),
-                   (S.struct_eq(st, m['contract'], W.swap), 'swap goes to the configured swap contract', 'swap:target'),
-                   (z3.And(after_s <= share, (share - after_s) * E * E <= z3.If(share > W.bal_s, share - W.bal_s, 0) * (E * E - W.price * inv) + (inv + 3 * E) * E),
+def zif(c, a, b):
+    if isinstance(c, bool):
+        return a if c else b
+    return z3.If(c, a, b)
+
+
+def zand(*cs):
+    cs = [c for c in cs if c is not True]
+    if any(c is False for c in cs):
+        return False
+    return z3.And(*cs) if cs else True
+
+
+def ob_swap(n_swap=None):
+    """n_swap=None: the instantiated configuration (both reward denoms); n_swap=k: any list of k configured denoms
+    (each the stSei denom, the bSei denom or a foreign one; repetitions allowed) and a foreign balance."""
+    def ob(ctx):
+        W = world(ctx, n_swap)
+        I = W.I
+        S = I.summ
+        Bs = W.iv('stsei_total_bonded', 0, CAP)
+        Bb = W.iv('bsei_total_bonded', 0, CAP)
+        msg = W.mk.variant('msg::ExecuteMsg', 'SwapToRewardDenom', crate=W.crate, bsei_total_bonded=U128(Bb), stsei_total_bonded=U128(Bs))
+        raw_scenario(W, 'execute', msg, W.hub, querier=W.querier_template())
+        nok = 0
+        general = n_swap is not None
+        # what the contract may use: the coins of the configured denominations, each counted once
+        k_s, k_b = W.known(W.sdenom), W.known(W.bdenom)
+        fs = zand(W.known(W.fdenom), W.bal_o >= 1) if general else False
+        eff_s = zif(k_s, W.bal_s, 0)
+        got_f = zif(fs, W.sim, 0) if general else 0
+        eff_b = zif(k_b, W.bal_b, 0) + got_f
+        for st, res in W.execute(msg, W.hub):
+            if not is_ok(res):
+                continue        # overflow panics at extreme balance x price products are outside the property
+            nok += 1
+            msgs = W.messages(st, res)
+            inv = sdiv(I, st, E * E, W.price)
+            total = eff_s + sdiv(I, st, eff_b * inv, E)
+            share = sdiv(I, st, total * Bs, Bs + Bb)
+            cl = [(len(msgs) <= (2 if general else 1), 'at most one swap message per coin to convert', 'swap:count')]
+            off = {'s': 0, 'b': 0, 'f': 0}
+            nf = 0
+            for m in msgs:
+                sm = m['msg']
+                coin = sm.fields[0]
+                denom, amt = coin.fields[0], coin.fields[1].fields[0]
+                is_s = S.struct_eq(st, denom, W.sdenom)
+                is_b = S.struct_eq(st, denom, W.bdenom)
+                is_f = S.struct_eq(st, denom, W.fdenom)
+                off['s'] = off['s'] + zif(is_s, amt, 0)
+                off['b'] = off['b'] + zif(is_b, amt, 0)
+                off['f'] = off['f'] + zif(is_f, amt, 0)
+                nf = nf + zif(is_f, 1, 0)
+                cl += [(amt >= 1, 'no zero swap', 'swap:nonzero'),
+                       (z3.And(len(m['funds']) == 1, m['funds'][0][1] == amt) if m['funds'] else False, 'offered coin is attached as funds', 'swap:funds'),
+                       (S.struct_eq(st, m['contract'], W.swap), 'swap goes to the configured swap contract', 'swap:target')]
+            held_ok = zand(off['s'] <= W.bal_s, off['b'] <= W.bal_b + got_f)
+            if general:
+                held_ok = zand(held_ok, off['f'] <= W.bal_o)
+                cl.append((nf == zif(fs, 1, 0), 'a held foreign coin of a configured denomination is converted exactly once, others never', 'swap:foreign'))
+                cl.append((z3.Implies(fs, off['f'] == W.bal_o) if fs is not False else True, 'the whole foreign coin is converted', 'swap:foreign_whole'))
+            after_s = eff_s - off['s'] + sdiv(I, st, off['b'] * inv, E)
+            cl += [(held_ok, 'never offers more of a coin than it holds (summed over the swap messages of the transaction)', 'swap:offer'),
+                   (z3.And(after_s <= share, (share - after_s) * E * E <= z3.If(share > eff_s, share - eff_s, 0) * (E * E - W.price * inv) + (inv + 3 * E) * E),
                     'stSei-side share after the swap = total x stSei bonded / total bonded (within 3 units + one bSei-denom unit + the 18-digit granularity of the inverse price)', 'swap:share')]
-        else:
-            cl += [(True, '', '')]
-        ctx.require_all(st, [c for c in cl if c[2]], W.mv, assume=[Bs + Bb > 0])
-        ctx.witness('swap selling the stSei denom', st, [Bs + Bb > 0, len(msgs) == 1] + ([S.struct_eq(st, msgs[0]['msg'].fields[0].fields[0], W.sdenom)] if msgs else [False]), W.mv)
-        ctx.witness('swap selling the bSei denom', st, [Bs + Bb > 0, len(msgs) == 1] + ([z3.Not(S.struct_eq(st, msgs[0]['msg'].fields[0].fields[0], W.sdenom))] if msgs else [False]), W.mv)
-    ctx.need_witness('Ok path', nok > 0)
-    ctx.expect_witness('sell-stSei-denom region', 'selling the stSei denom')
-    ctx.expect_witness('sell-bSei-denom region', 'selling the bSei denom')
+            ctx.require_all(st, [c for c in cl if c[0] is not True], W.mv, assume=[Bs + Bb > 0])
+            if msgs:
+                last = msgs[-1]['msg'].fields[0].fields[0]
+                ctx.witness('swap selling the stSei denom', st, [Bs + Bb > 0, S.struct_eq(st, last, W.sdenom)], W.mv, expect='ok')
+                ctx.witness('swap selling the bSei denom', st, [Bs + Bb > 0, S.struct_eq(st, last, W.bdenom)], W.mv, expect='ok')
+                if general and len(msgs) == 2:
+                    ctx.witness('swap converting a foreign coin first', st, [Bs + Bb > 0], W.mv, expect='ok')
+        ctx.need_witness('Ok path', nok > 0)
+        if not general or n_swap >= 1:
+            ctx.expect_witness('sell-stSei-denom region', 'selling the stSei denom')
+            ctx.expect_witness('sell-bSei-denom region', 'selling the bSei denom')
+        if general and n_swap >= 2:
+            ctx.expect_witness('foreign coin region', 'foreign coin first')
+        ctx.ob.bounds = {'configured swap denominations': 'stSei + bSei reward denom' if not general else '%d entries, any of 3 denominations, repetitions allowed' % n_swap}
+    return ob
 
 
 def ob_dispatch(ctx):
@@ -132,7 +175,12 @@ def ob_dispatch(ctx):
     ctx.expect_witness('rate = 1 region', 'keeper rate 1')
 
 
-OBLIGATIONS = [('swap_to_reward_denom', ob_swap), ('dispatch_rewards', ob_dispatch)]
+OBLIGATIONS = [('swap_to_reward_denom', ob_swap()), ('swap_denoms_1', ob_swap(1)), ('swap_denoms_2', ob_swap(2)), ('swap_denoms_0', ob_swap(0)),
+               ('swap_denoms_3', ob_swap(3)), ('dispatch_rewards', ob_dispatch)]
+
+
+def tier_filter(name, tier):
+    return tier == 'thorough' or name not in ('swap_denoms_0', 'swap_denoms_3')
 
 
 def ORACLE(v, scn, out):
@@ -179,31 +227,63 @@ def ORACLE(v, scn, out):
         if what not in ('zero_coin', 'total', 'keeper'):
             return None
         return bad
-    if key == 'swap:share':
+    if key.startswith('swap:'):
+        import base64, json as js
         from decimal import Decimal as D
-        price = int(D(q['smart'][0]['response']) * 10 ** 18)
-        inv = E * E // price
-        body = scn['msg']['swap_to_reward_denom']
-        Bs, Bb = int(body['stsei_total_bonded']), int(body['bsei_total_bonded'])
-        if Bs + Bb == 0:
-            return []
-        total = bal.get('usei', 0) + bal.get('uusd', 0) * inv // E
-        share = total * Bs // (Bs + Bb)
-        after = bal.get('usei', 0)
-        for sm in msgs:
-            c = sm['msg']['wasm']['execute']['msg']['swap_denom']['from_coin']
-            if c['denom'] == 'usei':
-                after -= int(c['amount'])
-            else:
-                after += int(c['amount']) * inv // E
-        if after > share or (share - after) * E * E > max(0, share - bal.get('usei', 0)) * (E * E - price * inv) + (inv + 3 * E) * E:
-            bad.append('stSei-side amount after swap %d, share %d' % (after, share))
-        return bad
-    if key == 'swap:offer':
+        cfg = None
+        for k, val in scn['storage']:
+            if base64.b64decode(k) == b'config':
+                cfg = js.loads(base64.b64decode(val))
+        known = cfg['swap_denoms']
+        sim = 0
+        for sm_ in q['smart']:
+            if sm_['key'] == 'query_simulation':
+                sim = int(sm_['response']['return_amount'])
+        fs = 'uforeign' in known and bal.get('uforeign', 0) >= 1
+        eff_s = bal.get('usei', 0) if 'usei' in known else 0
+        got_f = sim if fs else 0
+        eff_b = (bal.get('uusd', 0) if 'uusd' in known else 0) + got_f
+        off = {'usei': 0, 'uusd': 0, 'uforeign': 0}
+        coins = []
         for sm in msgs:
             x = sm['msg']['wasm']['execute']
             c = x['msg']['swap_denom']['from_coin']
-            if int(c['amount']) > bal.get(c['denom'], 0):
-                bad.append('offers %s %s, holds %d' % (c['amount'], c['denom'], bal.get(c['denom'], 0)))
+            off[c['denom']] = off.get(c['denom'], 0) + int(c['amount'])
+            coins.append((c['denom'], int(c['amount']), x['funds'], x['contract_addr']))
+        what = key.split(':')[1]
+        if what == 'offer':
+            if off['usei'] > bal.get('usei', 0) or off['uusd'] > bal.get('uusd', 0) + got_f or off['uforeign'] > bal.get('uforeign', 0):
+                bad.append('offers %r, holds %r (+%d from the foreign conversion)' % (off, bal, got_f))
+        elif what == 'count':
+            if len(msgs) > 2:
+                bad.append('%d swap messages' % len(msgs))
+        elif what == 'nonzero':
+            if any(a_ == 0 for _, a_, _, _ in coins):
+                bad.append('zero swap')
+        elif what == 'funds':
+            for d_, a_, f_, _ in coins:
+                if f_ != [{'denom': d_, 'amount': str(a_)}]:
+                    bad.append('funds %r for offer %s%s' % (f_, a_, d_))
+        elif what == 'target':
+            if any(t_ != 'swap_contract' for _, _, _, t_ in coins):
+                bad.append('swap sent to %r' % [t_ for _, _, _, t_ in coins])
+        elif what in ('foreign', 'foreign_whole'):
+            nf = sum(1 for d_, _, _, _ in coins if d_ == 'uforeign')
+            if nf != (1 if fs else 0) or (fs and off['uforeign'] != bal.get('uforeign', 0)):
+                bad.append('foreign coin converted %d times for %d of %d held (configured: %r)' % (nf, off['uforeign'], bal.get('uforeign', 0), known))
+        elif what == 'share':
+            price = int(D(q['smart'][0]['response']) * 10 ** 18)
+            inv = E * E // price
+            body = scn['msg']['swap_to_reward_denom']
+            Bs, Bb = int(body['stsei_total_bonded']), int(body['bsei_total_bonded'])
+            if Bs + Bb == 0:
+                return []
+            total = eff_s + eff_b * inv // E
+            share = total * Bs // (Bs + Bb)
+            after = eff_s - off['usei'] + off['uusd'] * inv // E
+            if after > share or (share - after) * E * E > max(0, share - eff_s) * (E * E - price * inv) + (inv + 3 * E) * E:
+                bad.append('stSei-side amount after swap %d, share %d' % (after, share))
+        else:
+            return None
         return bad
     return None
